@@ -204,6 +204,23 @@ Section Step.
     all: pose proof (step_get_obj s i) as G; destruct (get_obj sc s i) as [s1 g]; cbn [fst] in G;
       destruct g; cbn [fst]; exact G.
   Qed.
+
+  (* the source lookup of the apply-time mutator: reads and cache writes only *)
+  Lemma step_mut_source s j : step s (fst (mut_source sc s j)).
+  Proof.
+    unfold mut_source. destruct (negb (kind_known sc (r_known s) j)); cbn [fst]; [apply step_refl|].
+    destruct (s_body _ && _); cbn [fst]; [apply step_refl|].
+    pose proof (step_get_obj s j) as G. destruct (get_obj sc s j) as [s1 g]. cbn [fst] in G.
+    destruct g; cbn [fst]; [exact G| |]; (eapply step_trans; [exact G|apply step_set_cache]).
+  Qed.
+  Lemma step_mut_sources js : forall s, step s (fst (mut_sources sc s js)).
+  Proof.
+    induction js as [|j t IH]; intros s; cbn [mut_sources fst]; [apply step_refl|].
+    pose proof (step_mut_source s j) as M. destruct (mut_source sc s j) as [s1 ok]. cbn [fst] in M.
+    destruct ok; cbn [fst]; [eapply step_trans; [exact M|apply IH]|exact M].
+  Qed.
+  Lemma step_mutate s l : step s (fst (mutate sc s l)).
+  Proof. unfold mutate. destruct (l_mut l); [apply step_mut_sources|apply step_refl]. Qed.
 End Step.
 
 (* ---- kubectl apply as ApplyTask runs it: one server-side PATCH, one client-side apply, or -
@@ -292,6 +309,151 @@ Lemma kubectl_apply_keeps {A} sc l (f : rst -> A) :
 Proof.
   intros H1 H2 s.
   apply (kubectl_apply_step sc l (fun a b => f b = f a)); [intros a b c E1 E2; congruence|exact H1|exact H2].
+Qed.
+
+(* ---- ApplyTask.mutate: the source lookups of the apply-time mutator.  Reads (get_obj) and writes of
+   the resource cache only: every preorder on run states that those two respect is respected by it, and
+   every component that neither writes is kept. *)
+Section Mutate.
+  Variable sc : scenario.
+  Variable R : rst -> rst -> Prop.
+  Hypothesis R_refl : forall s, R s s.
+  Hypothesis R_trans : forall a b c, R a b -> R b c -> R a c.
+  Hypothesis R_get : forall s i, R s (fst (get_obj sc s i)).
+  Hypothesis R_cache : forall s c, R s (set_cache s c).
+
+  Lemma mut_source_step s j : R s (fst (mut_source sc s j)).
+  Proof.
+    unfold mut_source. destruct (negb (kind_known sc (r_known s) j)); cbn [fst]; [apply R_refl|].
+    destruct (s_body _ && _); cbn [fst]; [apply R_refl|].
+    pose proof (R_get s j) as G. destruct (get_obj sc s j) as [s1 g]. cbn [fst] in G.
+    destruct g; cbn [fst]; [exact G| |]; (eapply R_trans; [exact G|apply R_cache]).
+  Qed.
+  Lemma mut_sources_step js : forall s, R s (fst (mut_sources sc s js)).
+  Proof.
+    induction js as [|j t IH]; intros s; cbn [mut_sources fst]; [apply R_refl|].
+    pose proof (mut_source_step s j) as M. destruct (mut_source sc s j) as [s1 ok]. cbn [fst] in M.
+    destruct ok; cbn [fst]; [eapply R_trans; [exact M|apply IH]|exact M].
+  Qed.
+  Lemma mutate_step s l : R s (fst (mutate sc s l)).
+  Proof. unfold mutate. destruct (l_mut l); [apply mut_sources_step|apply R_refl]. Qed.
+End Mutate.
+
+Lemma get_obj_fields sc s i :
+  let s' := fst (get_obj sc s i) in
+  r_cl s' = r_cl s /\ r_tbl s' = r_tbl s /\ r_cache s' = r_cache s /\ r_aband s' = r_aband s /\
+  r_tr s' = r_tr s /\ r_abort s' = r_abort s /\ r_known s' = r_known s /\
+  r_nlist s' = r_nlist s /\ r_nget s' = r_nget s /\ r_nwrite s' = r_nwrite s.
+Proof.
+  cbv zeta. unfold get_obj. destruct (faulted sc _); [cbn; repeat split|].
+  destruct (find_obj _ _); cbn; repeat split.
+Qed.
+
+Lemma mutate_keeps {A} sc (f : rst -> A) :
+  (forall s i, f (fst (get_obj sc s i)) = f s) -> (forall s c, f (set_cache s c) = f s) ->
+  forall s l, f (fst (mutate sc s l)) = f s.
+Proof.
+  intros H1 H2 s l.
+  apply (mutate_step sc (fun a b => f b = f a)); [reflexivity|intros a b c E1 E2; congruence|exact H1|exact H2].
+Qed.
+
+Section MutateFields.
+  Variable sc : scenario.
+  Lemma mutate_cl s l : r_cl (fst (mutate sc s l)) = r_cl s.
+  Proof. apply (mutate_keeps sc r_cl); [intros; apply get_obj_fields|reflexivity]. Qed.
+  Lemma mutate_tbl s l : r_tbl (fst (mutate sc s l)) = r_tbl s.
+  Proof. apply (mutate_keeps sc r_tbl); [intros; apply get_obj_fields|reflexivity]. Qed.
+  Lemma mutate_aband s l : r_aband (fst (mutate sc s l)) = r_aband s.
+  Proof. apply (mutate_keeps sc r_aband); [intros; apply get_obj_fields|reflexivity]. Qed.
+  Lemma mutate_tr s l : r_tr (fst (mutate sc s l)) = r_tr s.
+  Proof. apply (mutate_keeps sc r_tr); [intros; apply get_obj_fields|reflexivity]. Qed.
+  Lemma mutate_abort s l : r_abort (fst (mutate sc s l)) = r_abort s.
+  Proof. apply (mutate_keeps sc r_abort); [intros; apply get_obj_fields|reflexivity]. Qed.
+  Lemma mutate_known s l : r_known (fst (mutate sc s l)) = r_known s.
+  Proof. apply (mutate_keeps sc r_known); [intros; apply get_obj_fields|reflexivity]. Qed.
+  Lemma mutate_nlist s l : r_nlist (fst (mutate sc s l)) = r_nlist s.
+  Proof. apply (mutate_keeps sc r_nlist); [intros; apply get_obj_fields|reflexivity]. Qed.
+  Lemma mutate_nget s l : r_nget (fst (mutate sc s l)) = r_nget s.
+  Proof. apply (mutate_keeps sc r_nget); [intros; apply get_obj_fields|reflexivity]. Qed.
+  Lemma mutate_nwrite s l : r_nwrite (fst (mutate sc s l)) = r_nwrite s.
+  Proof. apply (mutate_keeps sc r_nwrite); [intros; apply get_obj_fields|reflexivity]. Qed.
+
+  (* what the lookups leave in the resource cache: new entries on top of the old ones, each about a source
+     of the manifest, saying either "not found" (no body; the object is not in the cluster) or carrying the
+     body of the live object (its UID, generation 2, a status that is neither Failed nor NotFound) *)
+  Definition mut_entry (cl : cluster) (o : sobs) : Prop :=
+    (s_st o = SNotFound /\ s_body o = false /\ find_obj (objs cl) (s_id o) = None) \/
+    (s_body o = true /\ s_gen o = harness_gen /\ (s_st o = SCurrent \/ s_st o = SInProgress) /\
+     exists c, find_obj (objs cl) (s_id o) = Some c /\ s_uid o = c_uid c).
+
+  Lemma mut_source_cache s j :
+    exists ex, r_cache (fst (mut_source sc s j)) = ex ++ r_cache s /\
+               forall o, In o ex -> s_id o = j /\ mut_entry (r_cl s) o.
+  Proof.
+    unfold mut_source. destruct (negb (kind_known sc (r_known s) j)); cbn [fst]; [exists []; split; [reflexivity|intros o []]|].
+    destruct (s_body _ && _); cbn [fst]; [exists []; split; [reflexivity|intros o []]|].
+    unfold get_obj. destruct (faulted sc _); cbn [fst]; [exists []; split; [reflexivity|intros o []]|].
+    destruct (find_obj (objs (r_cl s)) j) as [c|] eqn:F; cbn [fst set_cache r_cache].
+    - eexists [_]. split; [reflexivity|]. intros o [<-|[]]. cbn [s_id]. split; [reflexivity|]. right. cbn.
+      split; [reflexivity|]. split; [reflexivity|]. split; [destruct (u_gcur _); auto|]. exists c. split; [exact F|reflexivity].
+    - eexists [_]. split; [reflexivity|]. intros o [<-|[]]. cbn [s_id]. split; [reflexivity|]. left. cbn. auto.
+  Qed.
+
+  Lemma mut_source_cl s j : r_cl (fst (mut_source sc s j)) = r_cl s.
+  Proof.
+    apply (mut_source_step sc (fun a b => r_cl b = r_cl a)); [reflexivity|intros a b c E1 E2; congruence|intros; apply get_obj_fields|reflexivity].
+  Qed.
+
+  Lemma mut_sources_cache js : forall s,
+    exists ex, r_cache (fst (mut_sources sc s js)) = ex ++ r_cache s /\
+               forall o, In o ex -> In (s_id o) js /\ mut_entry (r_cl s) o.
+  Proof.
+    induction js as [|j t IH]; intros s; cbn [mut_sources fst]; [exists []; split; [reflexivity|intros o []]|].
+    destruct (mut_source_cache s j) as [e1 [E1 H1]]. pose proof (mut_source_cl s j) as C1.
+    destruct (mut_source sc s j) as [s1 ok]. cbn [fst] in E1, C1.
+    destruct ok; cbn [fst].
+    - destruct (IH s1) as [e2 [E2 H2]]. exists (e2 ++ e1). split; [rewrite E2, E1, app_assoc; reflexivity|].
+      intros o Ho. apply in_app_or in Ho. destruct Ho as [Ho|Ho].
+      + destruct (H2 o Ho) as [A B]. rewrite C1 in B. split; [right; exact A|exact B].
+      + destruct (H1 o Ho) as [A B]. split; [left; symmetry; exact A|exact B].
+    - exists e1. split; [exact E1|]. intros o Ho. destruct (H1 o Ho) as [A B]. split; [left; symmetry; exact A|exact B].
+  Qed.
+
+  Lemma mutate_cache s l :
+    exists ex, r_cache (fst (mutate sc s l)) = ex ++ r_cache s /\
+               forall o, In o ex -> l_mut l = true /\ In (s_id o) (l_deps l) /\ mut_entry (r_cl s) o.
+  Proof.
+    unfold mutate. destruct (l_mut l); [|exists []; split; [reflexivity|intros o []]].
+    destruct (mut_sources_cache (l_deps l) s) as [ex [E H]]. exists ex. split; [exact E|].
+    intros o Ho. destruct (H o Ho). auto.
+  Qed.
+
+  (* an object without the mutation spelling, or without references, is not looked at *)
+  Lemma mutate_plain s l : l_mut l = false \/ l_deps l = [] -> mutate sc s l = (s, true).
+  Proof. unfold mutate. intros [-> | E]; [reflexivity|]. rewrite E. destruct (l_mut l); reflexivity. Qed.
+End MutateFields.
+
+(* what a passing dependency filter says about every related object *)
+Lemma dep_filter_pass_rec sc pl tbl strat rel : dep_filter sc pl tbl strat rel = FPass ->
+  forall b, In b rel ->
+    ~ In b (pl_invalid pl) /\
+    exists r, lookup Nat.eqb tbl b = Some r /\ r_str r = strat /\ r_act r = ASucceeded /\
+              (is_dry (o_dry (sc_opts sc)) = true \/ r_rec r = RSucceeded).
+Proof.
+  induction rel as [|a rel IH]; cbn [dep_filter]; intros H b Hb; [destruct Hb|].
+  destruct (dep_check sc pl tbl strat a) eqn:DC; try discriminate.
+  destruct Hb as [<-|Hb]; [|exact (IH H b Hb)].
+  unfold dep_check in DC.
+  destruct (memn a (pl_invalid pl)) eqn:MI; [discriminate|].
+  destruct (lookup Nat.eqb tbl a) as [r|]; [|discriminate].
+  destruct (strategy_eqb (r_str r) strat) eqn:SE; cbn [negb] in DC; [|discriminate].
+  split.
+  - intros X. assert (Y : memn a (pl_invalid pl) = true); [|congruence].
+    unfold memn. apply existsb_exists. exists a. split; [exact X|apply Nat.eqb_refl].
+  - exists r. split; [reflexivity|]. split; [destruct (r_str r), strat; cbn in SE; congruence|].
+    destruct (r_act r); try discriminate. split; [reflexivity|].
+    destruct (is_dry (o_dry (sc_opts sc))); [left; reflexivity|right].
+    destruct (r_rec r); try discriminate. reflexivity.
 Qed.
 
 (* the mapper reset at the end of a wait task touches nothing but r_known *)
